@@ -377,7 +377,7 @@ func URLRequest(t *rapid.T, ss *SchemaSpec, o URLOpts) *URLReq {
 			}
 
 			if !o.Valid {
-				pool = append(pool, "nope", "")
+				pool = append(pool, "nope", "", " ")
 			}
 
 			n := rapid.IntRange(0, 5).Draw(t, "nfields")
@@ -402,7 +402,7 @@ func URLRequest(t *rapid.T, ss *SchemaSpec, o URLOpts) *URLReq {
 			}
 
 			if !o.Valid {
-				pool = append(pool, "nope", "-", "", "-nope")
+				pool = append(pool, "nope", "-", "", "-nope", " ", "  ", "- ")
 				pool = append(pool, relNames(resType)...)
 			}
 
